@@ -11,11 +11,17 @@ package core
 // Close() calls on the fakes, hook / static-source log lines) in order, then the answers found on the
 // request channels. Timers are armed by the path with a duration of one hour; a TimerFire operation
 // makes the armed timer expire now (Stop() == true tells that it was armed, then Reset(0)).
+//
+// alwaysAvailable paths (one G711 track): publishers / the static source offer either the same track
+// (SubStream.Initialize succeeds) or something else (it fails). After initialize() and after every
+// operation the driver reads which sub-stream is the current one of pa.stream (the unexported field
+// stream.Stream.subStream, through reflect) and names it: offline / handed to publisher p / static / none.
 
 import (
 	"context"
 	"fmt"
 	"os"
+	"reflect"
 	"sort"
 	"strings"
 	"sync"
@@ -23,6 +29,7 @@ import (
 	"time"
 
 	"github.com/bluenviron/gortsplib/v5/pkg/description"
+	"github.com/bluenviron/gortsplib/v5/pkg/format"
 
 	"github.com/bluenviron/mediamtx/internal/conf"
 	"github.com/bluenviron/mediamtx/internal/defs"
@@ -175,6 +182,7 @@ func (d *vpReader) APIReaderDescribe() *defs.APIPathReader {
 // ---- configuration -----------------------------------------------------------------------------
 
 type vpConf struct {
+	aa                    bool
 	static, sod, override bool
 	maxr                  int
 	hAvail, hUnavail      bool
@@ -184,6 +192,10 @@ type vpConf struct {
 
 func (c vpConf) kind() string {
 	switch {
+	case c.aa && c.static:
+		return "aa-static"
+	case c.aa:
+		return "aa-pub"
 	case c.static && c.sod:
 		return "static-ondemand"
 	case c.static:
@@ -197,11 +209,12 @@ func (c vpConf) kind() string {
 
 func (c vpConf) coq() string {
 	return cqApp("mkConf", cqBool(c.static), cqBool(c.sod), cqBool(c.override), cqZ(int64(c.maxr)),
-		cqBool(c.hAvail), cqBool(c.hUnavail), cqBool(c.hOnline), cqBool(c.hOffline), cqBool(c.hDemand), cqBool(c.hUnDemand))
+		cqBool(c.hAvail), cqBool(c.hUnavail), cqBool(c.hOnline), cqBool(c.hOffline), cqBool(c.hDemand), cqBool(c.hUnDemand),
+		cqBool(c.aa))
 }
 
 func (c vpConf) desc() map[string]any {
-	return map[string]any{"kind": c.kind(), "overridePublisher": c.override, "maxReaders": c.maxr,
+	return map[string]any{"kind": c.kind(), "alwaysAvailable": c.aa, "overridePublisher": c.override, "maxReaders": c.maxr,
 		"hooks": fmt.Sprintf("avail=%v unavail=%v online=%v offline=%v demand=%v undemand=%v",
 			c.hAvail, c.hUnavail, c.hOnline, c.hOffline, c.hDemand, c.hUnDemand)}
 }
@@ -233,12 +246,41 @@ func (c vpConf) pathConf(name string) *conf.Path {
 		RunOnDemandCloseAfter:      hour,
 		RecordPath:                 "/nonexistent/%path/%Y",
 	}
+	if c.aa {
+		pc.AlwaysAvailable = true
+		pc.AlwaysAvailableTracks = []conf.AlwaysAvailableTrack{{Codec: conf.CodecG711, MULaw: true, SampleRate: 8000, ChannelCount: 1}}
+	}
 	if c.static {
 		// a source whose Run() fails at once (url.Parse error): it never reports ready by itself;
 		// the driver plays the instance and calls StaticSourceHandlerSetReady / SetNotReady
 		pc.Source = "rtsp://%zz"
 	}
 	return pc
+}
+
+// vpDesc: the tracks a publisher / the static source offers. ok: the track of the alwaysAvailable stream;
+// otherwise one of three descriptions mediasAreCompatible refuses (no track, another codec, other G711 parameters)
+func vpDesc(ok bool, variant int) *description.Session {
+	if ok {
+		return &description.Session{Medias: []*description.Media{{
+			Type:    description.MediaTypeAudio,
+			Formats: []format.Format{&format.G711{PayloadTyp: 0, MULaw: true, SampleRate: 8000, ChannelCount: 1}},
+		}}}
+	}
+	switch variant % 3 {
+	case 0:
+		return &description.Session{}
+	case 1:
+		return &description.Session{Medias: []*description.Media{{
+			Type:    description.MediaTypeAudio,
+			Formats: []format.Format{&format.Opus{PayloadTyp: 96, ChannelCount: 2}},
+		}}}
+	default:
+		return &description.Session{Medias: []*description.Media{{
+			Type:    description.MediaTypeAudio,
+			Formats: []format.Format{&format.G711{PayloadTyp: 8, MULaw: false, SampleRate: 8000, ChannelCount: 1}},
+		}}}
+	}
 }
 
 // ---- operations --------------------------------------------------------------------------------
@@ -260,8 +302,9 @@ var vpTimerNames = []string{"TSSReady", "TSSClose", "TPubReady", "TPubClose"}
 
 type vpOp struct {
 	kind int
-	q    int // request id
-	a    int // publisher / reader id / timer index
+	q    int  // request id
+	a    int  // publisher / reader id / timer index
+	bad  bool // AddPublisher: tracks that an alwaysAvailable stream refuses
 }
 
 func (o vpOp) coq() string {
@@ -269,7 +312,7 @@ func (o vpOp) coq() string {
 	case vpDescribe:
 		return cqApp("Describe", cqZ(int64(o.q)))
 	case vpAddPublisher:
-		return cqApp("AddPublisher", cqZ(int64(o.q)), cqZ(int64(o.a)))
+		return cqApp("AddPublisher", cqZ(int64(o.q)), cqZ(int64(o.a)), cqBool(!o.bad))
 	case vpRemovePublisher:
 		return cqApp("RemovePublisher", cqZ(int64(o.a)))
 	case vpAddReader:
@@ -294,6 +337,9 @@ func (o vpOp) txt() string {
 	case vpDescribe:
 		return fmt.Sprintf("Describe(q%d)", o.q)
 	case vpAddPublisher:
+		if o.bad {
+			return fmt.Sprintf("AddPublisher(q%d,p%d,other-tracks)", o.q, o.a)
+		}
 		return fmt.Sprintf("AddPublisher(q%d,p%d)", o.q, o.a)
 	case vpRemovePublisher:
 		return fmt.Sprintf("RemovePublisher(p%d)", o.a)
@@ -318,6 +364,7 @@ func (o vpOp) txt() string {
 
 type vpReq struct {
 	q    int
+	pub  int
 	dres chan defs.PathDescribeRes
 	rres chan defs.PathAddReaderRes
 	pres chan defs.PathAddPublisherRes
@@ -340,14 +387,22 @@ type vpRun struct {
 	problem string
 
 	// what the driver itself has seen (used to bias the generator and for the class string)
-	curPub      int
-	streams     int
-	held        bool
-	fired       bool
-	replaced    bool
-	maxHit      bool
-	timedOut    bool
+	curPub       int
+	streams      int
+	held         bool
+	fired        bool
+	replaced     bool
+	maxHit       bool
+	timedOut     bool
 	leftOnDemand bool
+	badOverride  bool // an overriding publisher was refused by SubStream.Initialize
+	badAttach    bool // a publisher was refused by SubStream.Initialize
+	closedOnline bool // Close while a publisher / the static source was attached
+
+	subOwner map[uintptr]string // sub-streams handed out by the path -> Coq name of their owner
+	subKeep  []*stream.SubStream
+	initSub  string
+	subs     []string
 
 	steps []string
 	descs []string
@@ -368,6 +423,8 @@ func vpErrCode(err error) int {
 		return 5
 	case strings.Contains(msg, "since 'source' is not 'publisher'"):
 		return 6
+	case strings.Contains(msg, "but stream expects"):
+		return 7
 	}
 	return 99
 }
@@ -401,12 +458,14 @@ func (h *vpRun) poll() {
 				var s *stream.Stream
 				if res.SubStream != nil {
 					s = res.SubStream.Stream
+					h.own(res.SubStream, cqApp("SPub", cqZ(int64(r.pub))))
 				}
 				h.answer(r.q, s, res.Err)
 			case res := <-r.sres:
 				var s *stream.Stream
 				if res.SubStream != nil {
 					s = res.SubStream.Stream
+					h.own(res.SubStream, "SStatic")
 				}
 				h.answer(r.q, s, res.Err)
 			default:
@@ -414,6 +473,36 @@ func (h *vpRun) poll() {
 			}
 		}
 	}
+}
+
+func (h *vpRun) own(ss *stream.SubStream, who string) {
+	h.subOwner[reflect.ValueOf(ss).Pointer()] = who
+	h.subKeep = append(h.subKeep, ss) // keep it alive: its address identifies it
+}
+
+// curSub names the current sub-stream of the path's stream. Called while the path goroutine is idle (after the
+// barrier) or after it has ended.
+func (h *vpRun) curSub() string {
+	st := h.pa.stream
+	if st == nil {
+		return "SNone"
+	}
+	v := reflect.ValueOf(st).Elem()
+	cur := v.FieldByName("subStream")
+	if cur.IsNil() {
+		return "SNone"
+	}
+	off := v.FieldByName("offlineSubStream")
+	if !off.IsNil() {
+		oss := off.Elem().FieldByName("subStream")
+		if !oss.IsNil() && oss.Pointer() == cur.Pointer() {
+			return "SOffline"
+		}
+	}
+	if who, ok := h.subOwner[cur.Pointer()]; ok {
+		return who
+	}
+	return "(SPub 0)" // a sub-stream nobody was handed
 }
 
 // wait until the path goroutine has finished the handler it is in
@@ -435,6 +524,7 @@ func (h *vpRun) barrier() {
 
 func (h *vpRun) start(name string) {
 	h.rec = &vpRec{gens: map[*stream.Stream]int{}}
+	h.subOwner = map[uintptr]string{}
 	h.pubs = map[int]*vpPublisher{}
 	h.readers = map[int]*vpReader{}
 	h.pc = h.cf.pathConf(name)
@@ -460,6 +550,7 @@ func (h *vpRun) start(name string) {
 	}
 	h.pa.initialize()
 	h.barrier()
+	h.initSub = h.curSub()
 }
 
 func (h *vpRun) pub(id int) *vpPublisher {
@@ -490,7 +581,7 @@ func vpWithTimeout(f func()) bool {
 // exec runs one operation and returns false if the operation is not enabled (then nothing was done)
 func (h *vpRun) exec(o vpOp) bool {
 	pa := h.pa
-	req := &vpReq{q: o.q}
+	req := &vpReq{q: o.q, pub: o.a}
 	ar := defs.PathAccessRequest{Name: pa.name, SkipAuth: true}
 	switch o.kind {
 	case vpDescribe:
@@ -516,7 +607,7 @@ func (h *vpRun) exec(o vpOp) bool {
 		req.pres = make(chan defs.PathAddPublisherRes, 4)
 		h.reqs = append(h.reqs, req)
 		ar.Publish = true
-		r := defs.PathAddPublisherReq{Author: h.pub(o.a), Desc: &description.Session{}, AccessRequest: ar, Res: req.pres}
+		r := defs.PathAddPublisherReq{Author: h.pub(o.a), Desc: vpDesc(!o.bad, o.q), ReplaceNTP: true, AccessRequest: ar, Res: req.pres}
 		if h.closed {
 			ok := vpWithTimeout(func() {
 				_, err := pa.addPublisher(r)
@@ -579,7 +670,7 @@ func (h *vpRun) exec(o vpOp) bool {
 		h.reqs = append(h.reqs, req)
 		if !vpWithTimeout(func() {
 			pa.StaticSourceHandlerSetReady(context.Background(), defs.PathSourceStaticSetReadyReq{
-				Desc: &description.Session{}, Res: req.sres,
+				Desc: vpDesc(true, 0), ReplaceNTP: true, Res: req.sres,
 			})
 		}) {
 			h.problem = "StaticSourceHandlerSetReady blocks"
@@ -645,6 +736,11 @@ func (h *vpRun) exec(o vpOp) bool {
 
 	case vpClose:
 		if !h.closed {
+			h.rec.mu.Lock()
+			if h.curPub != 0 || h.rec.instReady {
+				h.closedOnline = true
+			}
+			h.rec.mu.Unlock()
 			pa.close()
 			if !vpWithTimeout(pa.wait) {
 				h.problem = "path does not terminate"
@@ -671,14 +767,25 @@ func (h *vpRun) step(o vpOp) {
 			h.streams++
 		}
 	}
+	sub := h.curSub()
 	// driver-side bookkeeping for the generator
 	if o.kind == vpAddPublisher {
+		prev := h.curPub
 		for _, e := range evs {
 			if strings.HasPrefix(e.txt, fmt.Sprintf("answer(q%d)=g", o.q)) {
-				if h.curPub != 0 {
+				if prev != 0 {
 					h.replaced = true
 				}
 				h.curPub = o.a
+			}
+			if e.txt == fmt.Sprintf("answer(q%d)=err7", o.q) {
+				h.badAttach = true
+			}
+			if strings.HasPrefix(e.txt, "pubClosed(") {
+				h.curPub = 0
+				if o.bad && h.cf.aa {
+					h.badOverride = true
+				}
 			}
 		}
 	}
@@ -696,8 +803,8 @@ func (h *vpRun) step(o vpOp) {
 			h.held = true
 		}
 	}
-	h.steps = append(h.steps, cqPair(o.coq(), cqList(coqs)))
-	h.descs = append(h.descs, o.txt()+" -> "+strings.Join(txts, " "))
+	h.steps = append(h.steps, cqPair(cqPair(o.coq(), cqList(coqs)), sub))
+	h.descs = append(h.descs, o.txt()+" -> "+strings.Join(txts, " ")+" | sub="+sub)
 }
 
 func (h *vpRun) finish() {
@@ -730,6 +837,15 @@ func (h *vpRun) class() string {
 	if h.leftOnDemand {
 		fl += "L"
 	}
+	if h.badAttach {
+		fl += "I"
+	}
+	if h.badOverride {
+		fl += "B"
+	}
+	if h.closedOnline {
+		fl += "C"
+	}
 	if fl == "" {
 		return h.cf.kind()
 	}
@@ -740,6 +856,17 @@ func (h *vpRun) class() string {
 
 func vpRandConf(r *vRand) vpConf {
 	c := vpConf{override: r.Bool()}
+	if r.Chance(3, 10) {
+		// alwaysAvailable: publisher or static source (never on demand: conf.Path.validate)
+		c.aa = true
+		c.override = r.Chance(2, 3)
+		c.static = r.Chance(1, 4)
+		if r.Chance(1, 2) {
+			c.maxr = r.Intn(4)
+		}
+		c.hAvail, c.hUnavail, c.hOnline, c.hOffline = r.Chance(2, 3), r.Chance(2, 3), r.Chance(3, 4), r.Chance(2, 3)
+		return c
+	}
 	switch r.Intn(10) {
 	case 0, 1, 2:
 		// plain publisher path
@@ -770,6 +897,12 @@ func (h *vpRun) randOp(r *vRand) vpOp {
 	}
 	var ws []w
 	switch h.cf.kind() {
+	case "aa-pub":
+		ws = []w{{vpAddPublisher, 28}, {vpRemovePublisher, 12}, {vpAddReader, 22}, {vpRemoveReader, 12}, {vpDescribe, 8},
+			{vpTimerFire, 2}, {vpReloadConf, 2}, {vpStaticReady, 1}, {vpStaticNotReady, 1}}
+	case "aa-static":
+		ws = []w{{vpStaticReady, 24}, {vpStaticNotReady, 16}, {vpAddReader, 22}, {vpRemoveReader, 12}, {vpDescribe, 8},
+			{vpAddPublisher, 4}, {vpRemovePublisher, 2}, {vpTimerFire, 3}, {vpReloadConf, 2}}
 	case "pub":
 		ws = []w{{vpAddPublisher, 20}, {vpRemovePublisher, 12}, {vpAddReader, 25}, {vpRemoveReader, 14}, {vpDescribe, 10},
 			{vpTimerFire, 3}, {vpReloadConf, 3}, {vpStaticReady, 1}, {vpStaticNotReady, 1}}
@@ -805,6 +938,7 @@ func (h *vpRun) randOp(r *vRand) vpOp {
 		h.nextQ++
 		o.q = h.nextQ
 		o.a = 1 + r.Intn(3)
+		o.bad = r.Chance(1, 3)
 	case vpAddReader:
 		h.nextQ++
 		o.q = h.nextQ
@@ -847,6 +981,7 @@ func vpScripts() []vpScript {
 	q := 0
 	D := func() vpOp { q++; return vpOp{kind: vpDescribe, q: q} }
 	AP := func(p int) vpOp { q++; return vpOp{kind: vpAddPublisher, q: q, a: p} }
+	APB := func(p int) vpOp { q++; return vpOp{kind: vpAddPublisher, q: q, a: p, bad: true} }
 	AR := func(r int) vpOp { q++; return vpOp{kind: vpAddReader, q: q, a: r} }
 	SR := func() vpOp { q++; return vpOp{kind: vpStaticReady, q: q} }
 	RP := func(p int) vpOp { return vpOp{kind: vpRemovePublisher, a: p} }
@@ -867,6 +1002,14 @@ func vpScripts() []vpScript {
 		{"max-readers-held", all(vpConf{maxr: 2, hDemand: true}), []vpOp{AR(1), AR(2), AR(3), AR(1), AP(1), RR(1), AR(3), CL}},
 		{"static-ondemand", all(vpConf{static: true, sod: true}), []vpOp{D(), AR(1), SR(), RR(1), TF(1), AR(1), TF(0), AR(2), SR(), SN, AR(3), CL}},
 		{"static", all(vpConf{static: true}), []vpOp{D(), SR(), AR(1), AR(2), SN, SR(), AP(1), AR(1), CL}},
+		// alwaysAvailable: the stream exists from creation; publishers come and go as sub-streams
+		{"aa-basic", all(vpConf{aa: true}), []vpOp{D(), AR(1), AP(1), AP(2), RP(1), AR(2), APB(2), AP(2), RR(1), CL, AP(3)}},
+		// an overriding publisher with other tracks: the replaced publisher must not stay the current sub-stream
+		{"aa-override-refused", all(vpConf{aa: true, override: true}), []vpOp{AP(1), AR(1), APB(2), D(), AP(3), AP(1), RP(1), CL}},
+		// closed while a publisher is online: every open pair is closed
+		{"aa-close-online", all(vpConf{aa: true, override: true}), []vpOp{AR(1), AP(1), AR(2), CL, D()}},
+		{"aa-static", all(vpConf{aa: true, static: true}), []vpOp{AR(1), SR(), AR(2), SN, D(), SR(), AP(1), CL}},
+		{"aa-max-readers", all(vpConf{aa: true, maxr: 2}), []vpOp{AR(1), AR(2), AR(3), AP(1), RP(1), AR(1), RR(2), AR(3), CL}},
 	}
 }
 
@@ -930,13 +1073,13 @@ func vpRunHistory(idx int, seed uint64, scripts []vpScript) vpResult {
 	}
 	h.finish()
 	d := h.cf.desc()
-	d["init"] = strings.Join(initTxt, " ")
+	d["init"] = strings.Join(initTxt, " ") + " | sub=" + h.initSub
 	d["history"] = h.descs
 	if script != nil {
 		d["script"] = script.name
 	}
 	return vpResult{
-		coq:        cqApp("PCase", h.cf.coq(), cqList(initCoq), cqList(h.steps)),
+		coq:        cqApp("PCase", h.cf.coq(), cqList(initCoq), h.initSub, cqList(h.steps)),
 		class:      h.class(),
 		desc:       d,
 		nontrivial: h.streams > 0,
